@@ -171,7 +171,8 @@ def resolve_decode(w, r, cur, wn, rn):
         for f in r["fields"]:
             if f["name"] not in out:
                 if f["has_default"]:
-                    out[f["name"]] = f["default"]
+                    from .ir import default_value
+                    out[f["name"]] = default_value(f["t"], f["default"], rn)
                 else:
                     raise NoResolution(f"reader field {f['name']} has no default")
         return out
